@@ -11,3 +11,7 @@ def targets(eng):
     return conn.targets_for(eng, ["__init__", "_wrap_fatal_connection_exception", "_cleanup", "report_fatal_error", "send_messages", "_set_connection_state",
                                   "_connect_resolve_host", "_connect_socket_connect", "_connect_init_frame_helper", "start_connection", "finish_connection",
                                   "handle_timeout", "handle_complex_message", "lemmas:C11", "send_messages_await_response_complex", "send_message_await_response", "disconnect"], ["C09"])
+
+
+# built-in mutants of the real source text for the thorough tier's self-check (each must be refuted by a named obligation)
+MUTANTS = [('first-cause-overwritten', 'aioesphomeapi/connection.py', '    def _set_fatal_exception_if_unset(self, err: Exception) -> None:\n        """Set the fatal exception if it hasn\'t been set yet."""\n        if self._fatal_exception is None:', '    def _set_fatal_exception_if_unset(self, err: Exception) -> None:\n        """Set the fatal exception if it hasn\'t been set yet."""\n        if True:')]
